@@ -16,8 +16,9 @@ TRUSTED = ["model coq/Value/EqualM.v hand-written from pointer.go (Equal); clien
            "the documented equality coq/Value/ValueEq.v is a reading of Equal's doc comment; two decisions where it is silent "
            "(bit lists have no struct view; non-struct lists of different element kinds are unequal even when empty) follow the "
            "encoding specification and are stated in the file header",
-           "den (coq/Value/Den.v) is the proof's notion of 'the value a pointer denotes'; that the harness's denote-of-walk "
-           "computes the same value is checked by the run (value_eq of the walked trees = Equal on every case), not proved"]
+           "den (coq/Value/Den.v) is the proof's notion of 'the value a pointer denotes'; the harness evaluates value_eq on the "
+           "executable decoder vdec, proved sound for den (C17_vdec_den); boundary-size ('big') cases bypass the list-based "
+           "model (quadratic) and compare Equal with the answer known by construction"]
 MODELLED = ["capnp.Client identity (abstract ids)", "Go slices with cap == len (the harness copies every segment)"]
 ASSUMPTIONS = ["message bytes are 0..255 and segments are shorter than 2^32 - 8 bytes (msg_ok); 64-bit platform",
                "the statement is conditional on Equal returning (b, nil): with exhausted traversal or depth limits it returns an error"]
@@ -29,7 +30,7 @@ LEVEL_TEXT = ("Proof: for all value trees the documented equality is reflexive, 
               "reflexive, symmetric and independent of the layout (C17_equal_refl/sym/layout_independent). The model is tied "
               "to pointer.go by a differential run (capnp.Equal vs extracted equal_m vs value_eq of the walked trees) on value "
               "pairs in random layouts. Defects F01 and O3 found by that run and fixed; pre-fix models kept with witnesses.")
-LEVEL_NOTE = ("Trusted: Coq kernel, extraction, harness, hand-written model. den vs the walker's denote is tied by the run only.")
+LEVEL_NOTE = ("Trusted: Coq kernel, extraction, harness, hand-written model. the specification side of the run is evaluated on vdec (sound for den).")
 TECHNIQUE = "Coq proof over an executable model + extracted-model/implementation differential run"
 DESIGN_REF = "DESIGN.md section 6, C17"
 
@@ -67,6 +68,8 @@ def _far_null(case):
 
 
 def classify(run, case, impl, model):
+    if case.startswith("big"):
+        return "%s/impl=%s/model=%s" % (case.split()[0], impl.split()[0], model.split()[0])
     kind = case.split()[0].split("/")
     if _far_null(case):
         kind = [kind[0] + "+farnull"] + kind[1:]
@@ -81,6 +84,8 @@ def classify(run, case, impl, model):
 def violates(run, case, impl, model):
     # the property's own predicate on the implementation: Equal (generous limits) differs from the documented
     # equality of the walked trees, or Equal panics
+    if case.startswith("big"):
+        return impl != model    # Equal differs from the answer known by construction
     i, m = _f(impl), _f(model)
     if i[0] == "panic" or i[3] == "panic":
         return True
